@@ -42,6 +42,11 @@ def make_schema(key, hostile=False):
     rng = random.Random(key)
     ir = S.generate(rng, hostile_descriptions="no-rewrap" if hostile else False)
     mode = rng.choice(["code", "code", "sdl"])
+    if mode == "sdl":
+        from .c11 import default_nests_owner_type
+
+        if default_nests_owner_type(canon.sdl_view(ir)):
+            mode = "code"      # build_schema cannot build these (known finding of C11)
     if mode == "code":
         schema, _ = S.build_code_schema(ir)
     else:
